@@ -222,3 +222,46 @@ theorem LkE.injectGlobal {name : String} {value : Expr} (hW : name ∈ cx.W)
   fun D _ _ => ⟨.genE fun _ _ => SoundE.injectGlobal hW hval, hnr D⟩
 
 end DarkluaModel.Sem.Heap
+
+namespace DarkluaModel.Sem.Heap
+variable {cx : Cx}
+
+/-- what a hook may assume about the run-time context at a node judged under the dead set `D`: no name
+watched by `D` is bound as a local (so it reads the global), and the facts about watched globals hold -/
+structure CtxOK (cx : Cx) (D : List DName) {N : NumOps} (env : Env N) (σ : State N) : Prop where
+  unbound : ∀ n, DName.wat n ∈ D → lookupAssoc n env.locals = none
+  watched : ∀ n ∈ cx.W, DName.wat n ∈ D
+  facts : ∀ p ∈ cx.G N, σ.getGlobal p.1 = p.2
+
+/-- contextual exact equality: same result and state in every context satisfying `CtxOK` -/
+def CtxEqE (cx : Cx) (D : List DName) (a a' : Expr) : Prop :=
+  ∀ (N : NumOps) (call : CallFn N) (ρ : ExtOracle N) (k : Nat) (env : Env N) (σ : State N),
+    CtxOK cx D env σ → evalE call ρ k env a' σ = evalE call ρ k env a σ
+def CtxEqS (cx : Cx) (D : List DName) (a a' : Stmt) : Prop :=
+  ∀ (N : NumOps) (call : CallFn N) (ρ : ExtOracle N) (k : Nat) (env : Env N) (σ : State N),
+    CtxOK cx D env σ → execS call ρ k env a' σ = execS call ρ k env a σ
+
+theorem SoundE.ofCtxEq {Q : QRel} {D : List DName} {a a' : Expr} (h : CtxEqE cx D a a')
+    (hrefl : SoundE Q cx D a' a') : SoundE Q cx D a a' := by
+  intro N call ρ k env env' σ σ' β hc hs he
+  rw [← h N call ρ k env σ ⟨fun n hn => (he.loc.nb n hn).1, he.loc.dw, hs.ginv⟩]
+  exact hrefl N call ρ k env env' σ σ' β hc hs he
+
+theorem SoundS.ofCtxEq {Q : QRel} {D : List DName} {a a' : Stmt} (h : CtxEqS cx D a a')
+    (hrefl : SoundS Q cx D a' a') : SoundS Q cx D a a' := by
+  intro N call ρ k env env' σ σ' β hc hs he
+  rw [← h N call ρ k env σ ⟨fun n hn => (he.loc.nb n hn).1, he.loc.dw, hs.ginv⟩]
+  exact hrefl N call ρ k env env' σ σ' β hc hs he
+
+/-- **Contextual exact steps as links** — the form of the local lemmas of the scope-tracking rules
+(`inject_global_value`, `remove_assertions` …): exact equality on the same state, assuming the watched
+names are unshadowed and the facts about them hold. -/
+theorem LkE.ofCtxEq {a a' : Expr} (h : ∀ D, WatOK cx D → CtxEqE cx D a a')
+    (hnr : ∀ D, WatOK cx D → NoRefE D a → NoRefE D a') : (LkE cx) a a' :=
+  fun D hd hn => ⟨.genE fun _ hq => SoundE.ofCtxEq (h D hd) (Heap.reflE hq a' D (hnr D hd hn)), hnr D hd hn⟩
+
+theorem LkS.ofCtxEq {a a' : Stmt} (h : ∀ D, WatOK cx D → CtxEqS cx D a a')
+    (hnr : ∀ D, WatOK cx D → NoRefS D a → NoRefS D a') : (LkS cx) a a' :=
+  fun D hd hn => ⟨.genS fun _ hq => SoundS.ofCtxEq (h D hd) (Heap.reflS hq a' D (hnr D hd hn)), hnr D hd hn⟩
+
+end DarkluaModel.Sem.Heap
